@@ -122,6 +122,87 @@ def text_scenario(rng, payload, nfrag, ncuts, compress_negotiated=False, stop_af
     return sc
 
 
+ZTAIL = b'\x00\x00\xff\xff'
+
+
+def zpos_scenario(rng):
+    """a compressed text message at a position > 1 of a connection with permessage-deflate (context takeover, or
+       server_no_context_takeover): a prefix of 1-3 items (compressed Text / Binary in 1-3 fragments, plain Text, Ping), THEN the
+       compressed Text under test, THEN an uncompressed Text 'A' (must be delivered iff the text under test was).  The text under test
+       is (slice) a slice of the plaintext history cut anywhere - also inside multi-byte characters -, compressed by the same zlib
+       stream, so that it is coded as back-references into the earlier messages; (token) a hand-made fixed block of pure
+       back-references (d, len) into the history, which means nothing without it; (gen) an independent payload.
+       Returns (scenario, prefix_events, out) - out: what an RFC 7692 receiver must make of the message (independent inflater of
+       refcodec over the plaintext window kept so far), None = not inflatable; plus whether the history matters."""
+    sc = Scenario([], prate=0)
+    snt = rng.random() < 0.3
+    sw = rng.choice([15, 15, 12, 9])
+    peer = refcodec.DeflatePeer(server_bits=sw, server_no_takeover=snt)
+    extra = b'Sec-WebSocket-Extensions: permessage-deflate; server_max_window_bits=%d%s\r\n' % (sw, b'; server_no_context_takeover' if snt else b'')
+    ctx = bytearray()
+    frames, expected = [], []
+    chars = ['a', 'b', ' ', 'é', '€', '\U0001f600', '߿', '퟿']
+
+    def zframes(op, wire):
+        pts = sorted(rng.sample(range(1, len(wire)), min(rng.choice([0, 0, 1, 2]), max(0, len(wire) - 1)))) if len(wire) > 1 else []
+        parts = cut(wire, pts) or [b'']
+        return [server_frame(op if i == 0 else 0, part, fin=1 if i == len(parts) - 1 else 0, rsv1=1 if i == 0 else 0) for i, part in enumerate(parts)]
+
+    ncomp = 0
+    for k in range(rng.randint(1, 3)):
+        kind = rng.choice(['ztext', 'ztext', 'zbin', 'text', 'ping']) if (k > 0 or rng.random() < 0.2) else 'ztext'
+        if kind in ('ztext', 'zbin'):
+            t = ''.join(rng.choice(chars) for _ in range(rng.randint(3, 20))).encode('utf-8')
+            if kind == 'zbin':
+                t = t[rng.randint(0, 2):] + bytes([rng.choice([0x80, 0xbf, 0xff, 0xc0])])
+            frames += zframes(1 if kind == 'ztext' else 2, peer.compress(t))
+            expected.append(('E:text:' if kind == 'ztext' else 'E:binary:') + t.hex())
+            ncomp += 1
+            if not snt:
+                ctx += t
+        elif kind == 'text':
+            t = ''.join(rng.choice(chars) for _ in range(rng.randint(0, 6))).encode('utf-8')
+            frames.append(server_frame(1, t)); expected.append('E:text:' + t.hex())
+        else:
+            d = bytes(rng.randrange(256) for _ in range(rng.randint(0, 3)))
+            frames.append(server_frame(9, d)); expected.append('E:ping:' + d.hex())
+    mode = rng.choice(['slice', 'slice', 'token', 'gen'])
+    hist = bytes(ctx)
+    if mode == 'slice' and len(hist) >= 4:
+        i = rng.randrange(0, len(hist) - 3)
+        j = rng.randint(i + 3, len(hist))
+        wire = peer.compress(hist[i:j])
+    elif mode == 'token' and len(hist) >= 3:
+        toks_ = []
+        for _ in range(rng.randint(1, 3)):
+            dd = rng.randint(1, len(hist)) if rng.random() < 0.8 else len(hist) + rng.randint(1, 4)      # sometimes beyond the history: not inflatable
+            toks_.append((dd, rng.randint(3, min(12, max(3, dd)))))
+            if rng.random() < 0.3:
+                toks_.append(rng.choice([0x61, 0x80, 0xe2]))
+        bw = refcodec.BitWriter()
+        refcodec.put_fixed_block(bw, toks_)
+        refcodec.sync_tail(bw)
+        wire = bw.bytes()
+        assert wire.endswith(ZTAIL)
+        wire = wire[:-4]
+    else:
+        mode = 'gen'
+        wire = peer.compress(gen_payload(rng))
+    try:
+        out = refcodec.inflate_log(wire + ZTAIL, hist, stop_at_final=False)['out']
+    except refcodec.InflateError:
+        out = None
+    try:
+        alone = refcodec.inflate_log(wire + ZTAIL, b'', stop_at_final=False)['out']
+    except refcodec.InflateError:
+        alone = None
+    frames += zframes(1, wire)
+    frames.append(server_frame(1, b'A'))
+    data = sc.good_reply(extra) + b''.join(frames)
+    sc.env = reads(coreutil.limit_chunks(cut(data, coreutil.random_cuts(rng, len(data), rng.choice([0, 1, 3, 10 ** 6]))))) + [('wait', 1, ('eof',))]
+    return sc, expected, out, dict(mode=mode, snt=snt, ncomp=ncomp, history_matters=(alone != out), wire=wire.hex(), window=hist.hex())
+
+
 def gen_payload(rng):
     kind = rng.random()
     cps = []
@@ -350,6 +431,36 @@ def explore(res, tier, seed, model_ok=True):
         else:
             if texts or len(perr) != 1:
                 res.failures.append(dict(cls='failfast-negotiated' if neg else ('failfast-after-control' if cb else 'failfast'), what='no ProtocolError as soon as the first offending byte arrived', input=line, scenario=js, observed=evs))
+
+    # 4. a compressed text message at a position > 1 (context takeover: its meaning depends on the earlier messages' window)
+    zs = [zpos_scenario(rng) for _ in range(150 if tier == 'quick' else 1500)]
+    zpairs = coreutil.run_pairs([z[0] for z in zs], model_ok)
+    for (js, line, real, model), (_, pre_evs, out, info) in zip(zpairs, zs):
+        if isinstance(real, dict):
+            res.crashes.append(real)
+            continue
+        try:
+            valid = out is not None and (out.decode('utf-8') is not None)      # CPython's strict decoder
+        except UnicodeDecodeError:
+            valid = False
+        res.case(('zpos', line), nontrivial=True)
+        res.traces_validated += 1
+        res.count('zpos_' + info['mode'])
+        res.count('zpos_no_takeover' if info['snt'] else 'zpos_takeover')
+        res.count('zpos_valid' if valid else ('zpos_not_inflatable' if out is None else 'zpos_invalid_utf8'))
+        if info['history_matters'] and not valid:
+            res.count('zpos_invalid_only_given_the_history')
+        if model is not None and real != model:
+            res.diffs.append(dict(input=line, real=real, model=model, scenario=js))
+        evs = [e for e in events(real) if e.startswith(('E:text', 'E:binary', 'E:ping', 'E:pong', 'E:protocol_error'))]
+        want = pre_evs + (['E:text:' + out.hex(), 'E:text:41'] if valid else [])
+        got = evs if valid else evs[:-1]
+        last_ok = valid or (len(evs) == len(pre_evs) + 1 and evs[-1].startswith('E:protocol_error') and evs[-1].endswith(':1'))
+        if got != want or not last_ok:
+            res.failures.append(dict(cls='zpos-verdict-valid' if valid else 'zpos-verdict-invalid',
+                what='compressed text at position > 1: ' + ('not delivered exactly once with the exact decoding of its inflated payload, followed by the next message' if valid
+                      else 'expected the events of the prefix, then ONE critical ProtocolError and nothing after'),
+                input=line, scenario=js, observed=evs, expected=want + ([] if valid else ['E:protocol_error:*:1']), info=info))
     if len(res.samples) < 4:
         res.samples += [p[1][:300] for p in pairs[:3]] + ['utf8 validate 0 e282', 'utf8 step 4 159']
 
